@@ -319,6 +319,10 @@ CORPUS = [
     C(b"C0644 5 ..\r\nhello\0"), C(b"C0644 5 \r..\nhello\0"), C(b"D0755 0 .\r\nC0644 5 same\nhello\0E\n"),
     C(b"T1234567890 0 1234567890 0\nD0755 0 ..\t\nT1234567890 0 1234567890 0\nC0644 5 pwned\nhello\0E\n", p=1),
     C(b"C0644 3 old\nabc\0"),
+    # existing entries without -p: contents replaced, modes left alone; with -p: modes taken over
+    C(b"D0700 0 sub\nC0600 3 deep\nxyz\0E\nC0604 3 old\nabc\0"),
+    C(b"T1234567890 0 1234567891 0\nD0700 0 sub\nT1234567890 0 1234567891 0\nC0600 3 deep\nxyz\0E\n"
+      b"T1234567890 0 1234567891 0\nC0604 3 old\nabc\0", p=1),
     C(b"T1234567890 0 1234567890 0\nD6755 0 newd\nC4755 2 f\nhi\0E\nC0644 0 \n\0", p=1),
     C(b"T1234567890 0 1234567890 0\nD2775 0 newd\nD0700 0 k\nE\nE\n", um=0o27),
     C(b"C0644 3 x\nab"),
